@@ -27,6 +27,14 @@ Fixpoint entries_of (n : bnode) : list entry :=
   end.
 Definition entries_in (cs : list (N * bnode)) : list entry := flat_map (fun kc => entries_of (snd kc)) cs.
 
+Lemma NoDup_app_l {A} (l1 l2 : list A) : NoDup (l1 ++ l2) -> NoDup l1.
+Proof.
+  induction l1 as [|x r IH]; intros H; [constructor|]. inversion H as [|? ? Hn Hr]; subst.
+  constructor; [intro Hi; apply Hn; apply in_or_app; left; exact Hi|apply IH; exact Hr].
+Qed.
+Lemma NoDup_app_r {A} (l1 l2 : list A) : NoDup (l1 ++ l2) -> NoDup l2.
+Proof. induction l1 as [|x r IH]; intros H; [exact H|]. inversion H; subst. apply IH; assumption. Qed.
+
 Lemma NoDup_app_single {A} (l : list A) x : NoDup l -> ~ In x l -> NoDup (l ++ [x]).
 Proof.
   intros Hnd Hx. induction Hnd as [|y l Hy Hnd IH]; cbn; [constructor; [tauto|constructor]|].
@@ -170,34 +178,40 @@ Section Trie.
       + unfold entries_in. rewrite flat_map_app. cbn [flat_map snd entries_of app]. apply Permutation_sym, Permutation_cons_append.
   Qed.
 
-  (* ---- BuildUnixFSShardedDirectory's loop ---- *)
-  Definition add_step (acc : res (list (N * bnode))) (e : entry) : res (list (N * bnode)) := c <- acc ;; add lg 70 0 c e.
+  (* ---- BuildUnixFSShardedDirectory's loop (generic in the step function so that the kernel never unfolds `add`) ---- *)
+  Section Fold.
+    Variable addf : list (N * bnode) -> entry -> res (list (N * bnode)).
+    Hypothesis addf_spec : forall cs e cs', bwf 0 (BShard cs) -> addf cs e = Ok cs' ->
+      bwf 0 (BShard cs') /\ Permutation (entries_in cs') (e :: entries_in cs).
+    Definition gstep (acc : res (list (N * bnode))) (e : entry) : res (list (N * bnode)) := c <- acc ;; addf c e.
 
-  Lemma fold_add_err es : forall x, (forall c, x <> Ok c) -> forall c, fold_left add_step es x <> Ok c.
-  Proof.
-    induction es as [|e r IH]; intros x Hx c; [apply Hx|]. cbn [fold_left]. apply IH.
-    intros c'. destruct x as [a| |]; [exfalso; apply (Hx a); reflexivity| |]; unfold add_step; cbn [bind]; discriminate.
-  Qed.
+    Lemma fold_g_err es : forall x, (forall c, x <> Ok c) -> forall c, fold_left gstep es x <> Ok c.
+    Proof.
+      induction es as [|e r IH]; intros x Hx c; [apply Hx|]. cbn [fold_left]. apply IH.
+      intros c'. destruct x as [a| |]; [exfalso; apply (Hx a); reflexivity| |]; unfold gstep; cbn [bind]; discriminate.
+    Qed.
 
-  Lemma fold_add_spec es : forall acc cs,
-    bwf 0 (BShard acc) -> fold_left add_step es (Ok acc) = Ok cs ->
-    bwf 0 (BShard cs) /\ Permutation (entries_in cs) (rev es ++ entries_in acc).
-  Proof.
-    induction es as [|e r IH]; intros acc cs Hw Hf; [inversion Hf; subst; split; [exact Hw|reflexivity]|].
-    cbn [fold_left] in Hf. unfold add_step at 2 in Hf. cbn [bind] in Hf.
-    destruct (add lg 70 0 acc e) as [acc'| |] eqn:Ea.
-    - destruct (add_spec 70 0 acc e acc' Hw Ea) as [Hw' Hp].
-      destruct (IH acc' cs Hw' Hf) as [Hw'' Hp']. split; [exact Hw''|].
-      rewrite Hp', Hp. cbn [rev]. rewrite <- app_assoc. cbn [app]. apply Permutation_app_head, Permutation_refl.
-    - exfalso. apply (fold_add_err r (Err e0) ltac:(discriminate) cs Hf).
-    - exfalso. apply (fold_add_err r Panic ltac:(discriminate) cs Hf).
-  Qed.
+    Lemma fold_g_spec es : forall acc cs,
+      bwf 0 (BShard acc) -> fold_left gstep es (Ok acc) = Ok cs ->
+      bwf 0 (BShard cs) /\ Permutation (entries_in cs) (rev es ++ entries_in acc).
+    Proof.
+      induction es as [|e r IH]; intros acc cs Hw Hf; [inversion Hf; subst; split; [exact Hw|reflexivity]|].
+      cbn [fold_left] in Hf. change (gstep (Ok acc) e) with (addf acc e) in Hf.
+      destruct (addf acc e) as [acc'| |] eqn:Ea.
+      - destruct (addf_spec acc e acc' Hw Ea) as [Hw' Hp].
+        destruct (IH acc' cs Hw' Hf) as [Hw'' Hp']. split; [exact Hw''|].
+        rewrite Hp', Hp. cbn [rev]. rewrite <- app_assoc. cbn [app]. apply Permutation_app_head, Permutation_refl.
+      - exfalso. apply (fold_g_err r (Err e0) ltac:(discriminate) cs Hf).
+      - exfalso. apply (fold_g_err r Panic ltac:(discriminate) cs Hf).
+    Qed.
+  End Fold.
 
   Theorem add_all_spec entries cs : add_all lg entries = Ok cs ->
     bwf 0 (BShard cs) /\ Permutation (entries_in cs) entries.
   Proof.
-    intros H. destruct (fold_add_spec entries [] cs ltac:(apply bwf_shard_intro; [constructor|exact I]) H) as [Hw Hp].
-    split; [exact Hw|]. rewrite Hp. cbn. rewrite app_nil_r. apply Permutation_sym, Permutation_rev.
+    intros H.
+    destruct (fold_g_spec (add lg 70 0) (add_spec 70 0) entries [] cs ltac:(apply bwf_shard_intro; [constructor|exact I]) H) as [Hw Hp].
+    split; [exact Hw|]. rewrite Hp. cbn [entries_in flat_map]. rewrite app_nil_r. apply Permutation_sym, Permutation_rev.
   Qed.
 
   (* ---- the map a well-formed trie denotes: follow the bucket path of the key's hash ---- *)
@@ -240,8 +254,8 @@ Section Trie.
   Lemma NoDup_flat_map_part {A B} (f : A -> list B) l x : NoDup (flat_map f l) -> In x l -> NoDup (f x).
   Proof.
     induction l as [|y r IH]; intros Hnd Hin; [destruct Hin|]. cbn in Hnd.
-    destruct Hin as [->|Hin]; [apply NoDup_app_remove_r in Hnd; exact Hnd|].
-    apply IH; [apply NoDup_app_remove_l in Hnd; exact Hnd|exact Hin].
+    destruct Hin as [->|Hin]; [apply NoDup_app_l in Hnd; exact Hnd|].
+    apply IH; [apply NoDup_app_r in Hnd; exact Hnd|exact Hin].
   Qed.
 
   (* member names resolve to their entry's link *)
